@@ -4,7 +4,11 @@
      exh2 <fn2> <type> <alo> <ahi> <blo> <bhi>        all pairs
      val  <fn1> <type> v1 v2 ...
      val2 <fn2> <type> a:b a:b ...
-     agg  <op> <op> ...   ops: A,i,num/den  P,i,j,k  PA,i,j  R,i     (3 variables; all are observed at the end) *)
+     valm <fn2> <typeN> <typeK> a:b ...               operands of two different types (div_ceil / round_up)
+     prange <start> b0 b1 ...                         byte-range popcount (start offset is for the harness only)
+     agg | aggf | aggi | aggz  <op> ...   ops: A,i,num/den  P,i,j,k  PA,i,j  R,i   (3 variables of Aggregate<double | float |
+                                          int | size_t>; all are observed at the end)
+   type names: u8 i8 u16 i16 u32 i32 u64 i64 and ull / ll (unsigned long long / long long = u64 / i64 in the model) *)
 open C20_model
 
 (* ---------- Z <-> int64 bit patterns / strings *)
@@ -43,7 +47,7 @@ let ty_of = function
   | "u8" -> { width = z_of_int 8; signed = false } | "i8" -> { width = z_of_int 8; signed = true }
   | "u16" -> { width = z_of_int 16; signed = false } | "i16" -> { width = z_of_int 16; signed = true }
   | "u32" -> { width = z_of_int 32; signed = false } | "i32" -> { width = z_of_int 32; signed = true }
-  | "u64" -> { width = z_of_int 64; signed = false } | "i64" -> { width = z_of_int 64; signed = true }
+  | "u64" | "ull" -> { width = z_of_int 64; signed = false } | "i64" | "ll" -> { width = z_of_int 64; signed = true }
   | s -> failwith ("bad type " ^ s)
 
 let fn1_of = function
@@ -123,13 +127,26 @@ let () =
           match String.split_on_char ':' v with
           | [x; y] -> Buffer.add_string b (show (eval2 f t (z_of_string x) (z_of_string y))); Buffer.add_char b ' '
           | _ -> failwith "bad pair") vs
-      | "agg" :: toks ->
+      | "valm" :: f :: tn :: tk :: vs ->
+        let f = fn2_of f and tn = ty_of tn and tk = ty_of tk in
+        List.iter (fun v ->
+          match String.split_on_char ':' v with
+          | [x; y] -> Buffer.add_string b (show (eval2m f tn tk (z_of_string x) (z_of_string y))); Buffer.add_char b ' '
+          | _ -> failwith "bad pair") vs
+      | "prange" :: _ :: bs ->
+        Buffer.add_string b (show (eval_range (List.map z_of_string bs)))
+      | (("agg" | "aggf" | "aggi" | "aggz") as kind) :: toks ->
         let ops = List.map agg_op toks in
-        let hi = dbl_max in
-        let s = run hi (qneg hi) (nat_of_int 3) ops in
+        let zq s = { qnum = z_of_string s; qden = XH } in
+        let (hi, lo) = match kind with
+          | "agg" -> (dbl_max, qneg dbl_max)
+          | "aggf" -> (flt_max, qneg flt_max)
+          | "aggi" -> (zq "2147483647", zq "-2147483648")
+          | _ -> (zq "18446744073709551615", zq "0") in
+        let s = run hi lo (nat_of_int 3) ops in
         let g = ghost (nat_of_int 3) ops in
         (* second opinion from the same model: feeding all values of the ghost list into one empty aggregate (run = feed + representation normalisation) *)
-        let s' = List.map (fun l -> List.hd (run hi (qneg hi) (nat_of_int 1) (List.map (fun v -> OAdd (O, v)) l))) g in
+        let s' = List.map (fun l -> List.hd (run hi lo (nat_of_int 1) (List.map (fun v -> OAdd (O, v)) l))) g in
         Buffer.add_string b (String.concat " | " (List.map show_agg s));
         Buffer.add_string b " || ";
         Buffer.add_string b (String.concat " | " (List.map show_agg s'))
